@@ -354,7 +354,7 @@ impl<'a> Walk<'a> {
         F: Fn(Path) + Sync + Send,
         's: 'w,
     {
-        if level > self.depth {
+        if level >= self.depth {
             return;
         }
         if !self.path_selector.matches_dir(&path) {
